@@ -21,21 +21,21 @@ KINDS = {
         broken=[("MC_Cabinet_asfound.cfg", "DeadResolvesToNothing")],
         gen="Gen_Cabinet.tla", gen_cfg=("Gen_Cabinet_quick.cfg", "Gen_Cabinet_thorough.cfg"), sim_cfg="Gen_Cabinet_sim.cfg", sim_depth=30,
         events={"alloc", "update", "free", "at", "clear", "wbegin", "visit", "wend"},
-        random=((150, 60, 10000), (1500, 80, 40000))),
+        random=((150, 60, 10000), (1000, 80, 40000))),
     "pool": dict(
         trace=("Trace_Pool.tla", "Trace_Pool.cfg"), mc="MC_Pool.tla", mc_cfg=("MC_Pool_quick.cfg", "MC_Pool_thorough.cfg"),
         actions=["DoNew", "DoAlloc", "DoFree", "Del"],
         broken=[("MC_Pool_nopop.cfg", "ParkedSound"), ("MC_Pool_nodtor.cfg", "CtorDtorBalanced")],
         gen="Gen_Pool.tla", gen_cfg=("Gen_Pool_quick.cfg", "Gen_Pool_thorough.cfg"), sim_cfg="Gen_Pool_sim.cfg", sim_depth=40,
         events={"pnew", "palloc", "pfree", "pdel"},
-        random=((200, 60, 6000), (2000, 80, 20000))),
+        random=((200, 60, 6000), (1200, 80, 20000))),
     "fd": dict(
         trace=("Trace_Fd.tla", "Trace_Fd.cfg"), mc="MC_Fd.tla", mc_cfg=("MC_Fd_quick.cfg", "MC_Fd_thorough.cfg"),
         actions=["DoNew", "DoNull", "DoCopyC", "DoMoveC", "DoCopyA", "DoMoveA", "DoSwap", "DoReset", "DoClose", "DoDel"],
         broken=[("MC_Fd_noguard.cfg", "NeverEarly")],
         gen="Gen_Fd.tla", gen_cfg=("Gen_Fd_quick.cfg", "Gen_Fd_thorough.cfg"), sim_cfg="Gen_Fd_sim.cfg", sim_depth=30,
         events={"fnew", "fnull", "fcopyc", "fmovec", "fcopya", "fmovea", "fswap", "freset", "fclose", "fdel"},
-        random=((200, 60, 4000), (2000, 80, 20000))),
+        random=((200, 60, 4000), (1200, 80, 20000))),
     "tag": dict(
         trace=("Trace_Tag.tla", "Trace_Tag.cfg"), mc="MC_Tag.tla", mc_cfg=("MC_Tag_quick.cfg", "MC_Tag_thorough.cfg"),
         actions=["DoTagNew", "DoTagCopyC", "DoTagAssign", "DoTagDel", "DoWNull", "DoWFromTag", "DoWCopyC", "DoWMoveC", "DoWAssignTag",
@@ -44,7 +44,7 @@ KINDS = {
         gen="Gen_Tag.tla", gen_cfg=("Gen_Tag_quick.cfg", "Gen_Tag_thorough.cfg"), sim_cfg="Gen_Tag_sim.cfg", sim_depth=30,
         events={"tnew", "tcopyc", "tmovec", "tassign", "tmassign", "tdel", "wnull", "wtag", "wget", "wcopyc", "wmovec", "wasgt", "wcopya",
                 "wmovea", "wswap", "wreset", "wdel"},
-        random=((200, 60, 4000), (2000, 80, 20000))),
+        random=((200, 60, 4000), (1200, 80, 20000))),
 }
 SCRIPT_KEYS = ("e", "k", "o", "h", "s", "v", "j", "x", "y", "keep", "real", "ty")
 
@@ -116,7 +116,7 @@ def run(ctx):
                 continue
             # 2. spec -> code: all scripts of the bounded generator, and random deep ones
             behs = ctx.tlc_gen(DIR, K["gen"], K["gen_cfg"][0 if q else 1], timeout=900)
-            deep = ctx.tlc_gen(DIR, K["gen"], K["sim_cfg"], simulate=(300 if q else 6000, 2 * K["sim_depth"]), timeout=300, workers=2)
+            deep = ctx.tlc_gen(DIR, K["gen"], K["sim_cfg"], simulate=(300 if q else 3000, 2 * K["sim_depth"]), timeout=300, workers=2)
             # (TLC prints every successor of the last level of a random trace: keep one script per trace)
             seen, uniq = set(), []
             for b in deep:
